@@ -28,16 +28,32 @@ type vfTFatal struct{}
 type vfT struct {
 	failed  bool
 	skipped bool
+	first   string // format / first operand of the first failure report
 	clean   []func()
 }
 
-func (t *vfT) Error(args ...interface{})                 { t.failed = true }
-func (t *vfT) Errorf(format string, args ...interface{}) { t.failed = true }
+func (t *vfT) note(args []interface{}) {
+	if t.first == "" && len(args) > 0 {
+		if s, ok := args[0].(string); ok {
+			t.first = s
+		} else {
+			t.first = "(non-string operand)"
+		}
+	}
+}
+func (t *vfT) notef(f string) {
+	if t.first == "" {
+		t.first = f
+	}
+}
+
+func (t *vfT) Error(args ...interface{})                 { t.note(args); t.failed = true }
+func (t *vfT) Errorf(format string, args ...interface{}) { t.notef(format); t.failed = true }
 func (t *vfT) Fail()                                     { t.failed = true }
 func (t *vfT) FailNow()                                  { t.failed = true; panic(vfTFatal{}) }
 func (t *vfT) Failed() bool                              { return t.failed }
-func (t *vfT) Fatal(args ...interface{})                 { t.failed = true; panic(vfTFatal{}) }
-func (t *vfT) Fatalf(format string, args ...interface{}) { t.failed = true; panic(vfTFatal{}) }
+func (t *vfT) Fatal(args ...interface{})                 { t.note(args); t.failed = true; panic(vfTFatal{}) }
+func (t *vfT) Fatalf(format string, args ...interface{}) { t.notef(format); t.failed = true; panic(vfTFatal{}) }
 func (t *vfT) Log(args ...interface{})                   {}
 func (t *vfT) Logf(format string, args ...interface{})   {}
 func (t *vfT) Helper()                                   {}
@@ -52,6 +68,7 @@ func (t *vfT) Run(name string, f func(t *vfT)) bool {
 	vfRunT(sub, f)
 	if sub.failed {
 		t.failed = true
+		t.notef(sub.first)
 	}
 	return !sub.failed
 }
@@ -104,7 +121,7 @@ def transform(src, pkg):
 def entries(pkgname, names):
     w = ['//go:build verif', '', 'package ' + pkgname, '']
     for n in names:
-        w.append('func VF_SELF_%s() {\n\tvfFreezeClock(1700000000) // the tests read the clock and expect it not to move by a second\n\tt := &vfT{}\n\tvfRunT(t, %s)\n\tvfAssert(!t.failed, "repo-test-%s-fails-under-gosx")\n}\n' % (n, n, n))
+        w.append('func VF_SELF_%s() {\n\tvfFreezeClock(1700000000) // the tests read the clock and expect it not to move by a second\n\tt := &vfT{}\n\tvfOpt("timers", 1) // real time passes in the tests: a pending timer fires when every goroutine is blocked\n\tvfRunT(t, %s)\n\tvfAssert(!t.failed, "repo-test-%s-fails-under-gosx: "+t.first)\n}\n' % (n, n, n))
     return '\n'.join(w)
 
 
